@@ -139,6 +139,10 @@ def _outside_spec(variant):
         ["rootURL:secret.txt", "f", tag + " sibling in the URL: namespace\n"],
         ["rootURL:dir/inner.txt", "f", tag + " inner of such a sibling\n"],
         ["secret/inner.txt", "f", tag + " inner\n"],
+        # siblings named like metadata of the root itself (the root's name plus a sidecar extension, a link file, a menu)
+        ["root.abstract", "f", tag + " abstract next to the root\n"], ["root.keywords", "f", tag + " keywords next to the root\n"],
+        ["root.ask", "f", "Ask: " + tag + "\n"], ["root.3d", "f", tag + "\n"], ["root.names", "f", "Name=" + tag + "\nPath=./secret.txt\n"],
+        ["root.gophermap", "f", "i" + tag + "\n0stolen\tsecret.txt\n"], ["root.cap/readme.txt", "f", "Name=" + tag + "\n"],
         ["rootx/file.txt", "f", tag + " sibling\n"],
         ["rootx/readme.txt", "f", tag + " sibling readme\n"],
     ]
